@@ -13,6 +13,7 @@ import (
 )
 
 const EOF = -1
+
 // blanks are what C's isspace accepts: form feed and vertical tab too
 const whitespace1 = 1<<'\t' | 1<<' ' | 1<<'\f' | 1<<'\v'
 const whitespace2 = 1<<'\t' | 1<<'\n' | 1<<'\r' | 1<<' ' | 1<<'\f' | 1<<'\v'
@@ -119,11 +120,16 @@ func (sc *Scanner) skipComments(ch int) error {
 	if sc.Peek() == '[' {
 		ch = sc.Next()
 		if sc.Peek() == '[' || sc.Peek() == '=' {
-			var buf bytes.Buffer
-			if err := sc.scanMultilineString(sc.Next(), &buf); err != nil {
-				return sc.Error(buf.String(), "invalid multiline comment")
+			// "--[" "="* "[" opens a long comment; without the second bracket this is a short comment
+			var level int
+			level, ch = sc.countSep(sc.Next())
+			if ch == '[' {
+				var buf bytes.Buffer
+				if err := sc.scanMultilineBody(level, &buf); err != nil {
+					return sc.Error(buf.String(), "invalid multiline comment")
+				}
+				return nil
 			}
-			return nil
 		}
 	}
 	for {
@@ -257,12 +263,18 @@ func (sc *Scanner) countSep(ch int) (int, int) {
 }
 
 func (sc *Scanner) scanMultilineString(ch int, buf *bytes.Buffer) error {
-	var count1, count2 int
+	var count1 int
 	count1, ch = sc.countSep(ch)
 	if ch != '[' {
 		return sc.Error(string(rune(ch)), "invalid multiline string")
 	}
-	ch = sc.Next()
+	return sc.scanMultilineBody(count1, buf)
+}
+
+// scanMultilineBody reads the text of a long bracket of the given level; the opening bracket has been consumed.
+func (sc *Scanner) scanMultilineBody(count1 int, buf *bytes.Buffer) error {
+	var count2 int
+	ch := sc.Next()
 	if ch == '\n' || ch == '\r' {
 		ch = sc.Next()
 	}
